@@ -794,3 +794,149 @@ Proof.
   split; [vm_compute; reflexivity|]. split; [vm_compute; discriminate|].
   split; vm_compute; reflexivity.
 Qed.
+
+(* ===================================================================================== *)
+(* sessions: schema objects used, changed in place, used again (round 3)                 *)
+
+(* the columns of every schema object after the in-place changes among ops - uses (validate, frame
+   creation, append) do not enter *)
+Fixpoint objs_after (objs : list schema) (ops : list sop) : list schema :=
+  match ops with
+  | [] => objs
+  | SMutate o m :: rest => objs_after (update_nth o (apply_mut m) objs) rest
+  | _ :: rest => objs_after objs rest
+  end.
+
+Definition is_mutation (op : sop) : bool := match op with SMutate _ _ => true | _ => false end.
+
+(* the frame was made from its schema object's present columns (no change of that object since) *)
+Definition fresh (st : sstate) : Prop :=
+  match sframe st with
+  | Some (o, f) => fk f = FSchema (obj st o)
+  | None => True
+  end.
+
+Lemma srun_cons : forall st op ops,
+  srun st (op :: ops) =
+  (fst (srun (fst (sstep st op)) ops), snd (sstep st op) :: snd (srun (fst (sstep st op)) ops)).
+Proof.
+  intros st op ops. cbn [srun]. destruct (sstep st op) as [st1 x]. cbn [fst snd].
+  destruct (srun st1 ops) as [st2 xs]. reflexivity.
+Qed.
+
+Lemma sstep_objs : forall st op,
+  sobjs (fst (sstep st op)) = objs_after (sobjs st) [op].
+Proof.
+  intros st op. destruct op as [o e|o m|o|e]; cbn [sstep objs_after fst sobjs]; try reflexivity.
+  destruct (sframe st) as [[o f]|]; [|reflexivity].
+  destruct (append_with (obj st o) f e) as [f1 a]. reflexivity.
+Qed.
+
+Lemma objs_after_cons : forall objs op ops,
+  objs_after objs (op :: ops) = objs_after (objs_after objs [op]) ops.
+Proof. intros objs op ops. destruct op; reflexivity. Qed.
+
+Lemma srun_objs : forall ops st,
+  sobjs (fst (srun st ops)) = objs_after (sobjs st) ops.
+Proof.
+  induction ops as [|op ops IH]; intros st.
+  - reflexivity.
+  - rewrite srun_cons. cbn [fst]. rewrite IH, sstep_objs. symmetry. apply objs_after_cons.
+Qed.
+
+Lemma objs_after_mutations_only : forall ops objs,
+  objs_after objs (filter is_mutation ops) = objs_after objs ops.
+Proof.
+  induction ops as [|op ops IH]; intros objs; [reflexivity|].
+  destruct op; cbn [filter is_mutation objs_after]; apply IH.
+Qed.
+
+(* a validation at any point of any session is decided by the object's columns as they are then *)
+Lemma session_validate_current : forall st pre o e,
+  snd (sstep (fst (srun st pre)) (SValidate o e)) =
+  SOVerdict (validate_entry (nth o (objs_after (sobjs st) pre) []) e).
+Proof.
+  intros st pre o e. cbn [sstep snd]. unfold obj. rewrite srun_objs. reflexivity.
+Qed.
+
+(* ... so earlier uses (of this or any other object) do not matter: only the in-place changes do *)
+Lemma session_uses_do_not_matter : forall st pre o e,
+  snd (sstep (fst (srun st pre)) (SValidate o e)) =
+  snd (sstep (fst (srun (mkss (sobjs st) None) (filter is_mutation pre))) (SValidate o e)).
+Proof.
+  intros st pre o e. rewrite !session_validate_current. cbn [sobjs].
+  rewrite objs_after_mutations_only. reflexivity.
+Qed.
+
+Lemma append_with_same : forall vs f e, fk f = FSchema vs -> append_with vs f e = append f e.
+Proof.
+  intros vs f e H. unfold append_with, append, step_validate. rewrite H.
+  destruct (validate_entry vs e); reflexivity.
+Qed.
+
+Lemma append_with_atomic : forall vs f e x,
+  snd (append_with vs f e) = ARaise x -> fst (append_with vs f e) = f.
+Proof.
+  intros vs f e x. unfold append_with. destruct (validate_entry vs e); cbn [fst snd]; try reflexivity.
+  destruct (step_build f e) as [rw|y]; cbn [fst snd]; try reflexivity.
+  destruct (step_size rw) as [[]|y]; cbn [fst snd]; [discriminate | reflexivity].
+Qed.
+
+Lemma append_with_fk : forall vs f e, fk (fst (append_with vs f e)) = fk f.
+Proof.
+  intros vs f e. unfold append_with. destruct (validate_entry vs e); cbn [fst]; try reflexivity.
+  destruct (step_build f e) as [rw|y]; cbn [fst]; try reflexivity.
+  destruct (step_size rw) as [[]|y]; reflexivity.
+Qed.
+
+(* an append at any point of any session validates against its schema object's columns as they are then *)
+Lemma session_append_current : forall st pre o f e,
+  sframe (fst (srun st pre)) = Some (o, f) ->
+  snd (sstep (fst (srun st pre)) (SAppend e)) =
+  SOAppend (snd (append_with (nth o (objs_after (sobjs st) pre) []) f e))
+           (fst (append_with (nth o (objs_after (sobjs st) pre) []) f e)).
+Proof.
+  intros st pre o f e H. cbn [sstep]. rewrite H. unfold obj. rewrite srun_objs.
+  destruct (append_with (nth o (objs_after (sobjs st) pre) []) f e) as [f1 a]. reflexivity.
+Qed.
+
+(* a frame made from the object's present columns appends exactly as the frames of the history theorems *)
+Lemma session_fresh_append : forall st o f e,
+  fresh st -> sframe st = Some (o, f) ->
+  sstep st (SAppend e) =
+  (mkss (sobjs st) (Some (o, fst (append f e))), SOAppend (snd (append f e)) (fst (append f e))).
+Proof.
+  intros st o f e HF HS. unfold fresh in HF. rewrite HS in HF. cbn [sstep]. rewrite HS.
+  rewrite (append_with_same _ f e HF). destruct (append f e) as [f1 a]. reflexivity.
+Qed.
+
+(* making a frame establishes freshness; uses keep it; only an in-place change can end it *)
+Lemma fresh_step : forall st op,
+  match op with
+  | SMutate _ _ => True
+  | SNewFrame _ => fresh (fst (sstep st op))
+  | _ => fresh st -> fresh (fst (sstep st op))
+  end.
+Proof.
+  intros st op. destruct op as [o e|o m|o|e].
+  - intros H. exact H.
+  - exact I.
+  - unfold fresh. cbn [sstep fst sframe]. unfold obj. reflexivity.
+  - intros H. unfold fresh in *. cbn [sstep]. destruct (sframe st) as [[o f]|] eqn:HS.
+    + destruct (append_with (obj st o) f e) as [f1 a] eqn:EA. cbn [fst sframe]. unfold obj in *. cbn [sobjs].
+      assert (K := append_with_fk (nth o (sobjs st) []) f e). rewrite EA in K. cbn [fst] in K. rewrite K. exact H.
+    + cbn [fst]. rewrite HS. exact I.
+Qed.
+
+(* a raising append leaves the session's frame as it was - stale or not *)
+Lemma session_append_atomic : forall st o f e a f1,
+  sframe st = Some (o, f) ->
+  snd (sstep st (SAppend e)) = SOAppend a f1 -> (exists x, a = ARaise x) -> f1 = f /\ fst (sstep st (SAppend e)) = st.
+Proof.
+  intros st o f e a f1 HS HO [x Hx]. cbn [sstep] in *. rewrite HS in *.
+  destruct (append_with (obj st o) f e) as [f2 a2] eqn:EA. cbn [fst snd] in *.
+  inversion HO. subst a2 f2. subst a.
+  assert (A := append_with_atomic (obj st o) f e x). rewrite EA in A. cbn [fst snd] in A.
+  specialize (A eq_refl). subst f1. split; [reflexivity|].
+  destruct st as [objs fr]. cbn [sobjs sframe] in *. rewrite HS. reflexivity.
+Qed.
